@@ -37,7 +37,7 @@ NOTE = {
     'C07': 'The quantifier all pairs of types is met through the listed pairs only; reflect type comparison and the pure naming API sweep are outside (enumeration, not solver work). Counterexample replay: llc-14 build of every package + llgo\'s runtime IR vs the Go toolchain.',
     'C12': 'Five program shapes (chain, diamond, pass-through package, function-valued initialisers, one package in three files); the entry module that calls runtime.init / main.init (internal/build main_module.go) is outside: the check starts at the root package initialiser.',
     'C14': 'Three program shapes; linkname/export directives and C-callback wrappers are outside; equivalence of descriptor data is structural (private string constants compared by content).',
-    'C01': 'The quantifier all programs is met only through the hand-written corpus (58 functions, each also after the default cabi transform) and a grammar-generated sample of total integer/array/struct/closure functions (48 quick, 400 thorough, VERIF_SEED selects the sample; per-function budget 30 s / 180 s, overruns are reported inconclusive); loop bound 8; LLVM 14 binding as IR producer; optimisation level O2, linking, process exit codes and gc/nogc configuration are outside. Known finding: ssa_order_fix.',
+    'C01': 'The quantifier all programs is met only through the hand-written corpus (58 functions, each also after the default cabi transform) and a grammar-generated sample of total integer/array/struct/closure functions (48 quick, 200 thorough, VERIF_SEED selects the sample; per-function budget 30 s / 90 s, overruns are reported inconclusive); loop bound 8; LLVM 14 binding as IR producer; optimisation level O2, linking, process exit codes and gc/nogc configuration are outside. Known finding: ssa_order_fix.',
     'C03': 'Signal delivery (SIGSEGV re-arming) is not modelled; nil-map writes and failed type assertions (llgo raises the latter with a string value, not a runtime.Error - the property only asks for a panic) are covered by 7 forms; channel panics (send on / close of a closed or nil channel, plain and in select) are covered for one goroutine through 9 forms against an oracle channel model; nil faults are modelled as accesses inside the unmapped 1 MiB nil region.',
     'C04': 'Goexit, goroutine-exit defers and O2 are outside; the corpus is fixed (not seeded) because llgo\'s defer lowering has known defects (two recorded known findings).',
     'C10': 'Preemption bound 2 (3 thorough), no spurious wake-ups in quick; >= 4 threads, timers and the compiler lowering of select/chan ops are outside. Known finding: close racing an unbuffered hand-off.',
